@@ -1,5 +1,6 @@
 import PrefVerif.Lemmas.C19xAxis
 import PrefVerif.Lemmas.C19fixMirror
+import PrefVerif.Lemmas.C19onReach
 /-!
 # C19x helper lemmas, part 5: a 1-Euclidean profile reaches the LP with a left-to-right axis (up to mirroring);
 an embedding of the profile embeds the restricted preferences
@@ -40,19 +41,6 @@ theorem realises_restrict (alts : List Nat) (orders : List (List Nat)) (voters :
     cases hya; cases hyb
     exact hc _ _ (C19.lookup_axis_map alts x a (hmem a ha).2) (C19.lookup_axis_map alts x b (hmem b hb).2)
 
-/-- with the two ends `v1`, `vn` of the arrangement found by the pre-check sitting at `u < w`, the
-colouring stage succeeds and the axis handed to the LP lists the coloured alternatives from left to right -/
-theorem reach_lp_geo (alts : List Nat) (orders : List (List Nat)) (v1 vn : List Nat) (u w : Rat)
-    (x : Nat → Rat) (halts : alts.Nodup)
-    (hsc : (SingleCrossing.isSC orders alts.length).1 = true)
-    (hh : (scOrders alts orders).head? = some v1) (hl : (scOrders alts orders).getLast? = some vn)
-    (G : Geo alts x v1 vn u w) :
-    ∃ l, lp alts orders = some l ∧ l.axis.Pairwise (fun a b => x a < x b) := by
-  obtain ⟨g, hg, hinv⟩ := colouring_some G
-  have hst := stage_coloured alts orders _ _ g hsc hh hl hg
-  refine ⟨_, by unfold lp; rw [hst, hh, hl], ?_⟩
-  exact axis_sorted G hinv halts
-
 /-- a 1-Euclidean profile (distinct orders, ANY storage order) passes the pre-check and the colouring
 stage, and the axis handed to the LP lists the coloured alternatives from left to right either in the
 given embedding or in its mirror image -/
@@ -62,46 +50,14 @@ theorem reach_lp (alts : List Nat) (orders : List (List Nat))
     (hreal : Spec.Euclid.realises orders voters (alts.map (fun a => (a, x a))) = true) :
     ∃ l, lp alts orders = some l ∧
       (l.axis.Pairwise (fun a b => x a < x b) ∨ l.axis.Pairwise (fun a b => -x a < -x b)) := by
-  have hlen : voters.length = orders.length := ((Specs.realises_iff _ _ _).1 hreal).1
-  have hrep := rep_of_realises alts orders voters x hord hreal
   have hR : C04.Rankings alts orders := ⟨halts, fun o ho => sameRanking_of_perm halts (hord o ho)⟩
   have hsc : (SingleCrossing.isSC orders alts.length).1 = true :=
     C04c.isSC_complete alts orders hR hnd (sc_of_realised alts orders voters x hord hreal)
   have hs : SingleCrossing.isSC orders alts.length = (true, scOrders alts orders) := by
     rw [← hsc]; rfl
   obtain ⟨hperm, _⟩ := C04.isSC_sound alts orders _ hR hnd hs
-  generalize hsdef : scOrders alts orders = s at hperm
-  have hslen : s.length = orders.length := hperm.length_eq
-  have hsnd : s.Nodup := hperm.nodup_iff.2 hnd
-  have hlast : s.length - 1 < s.length := by omega
-  have hh : s.head? = some (s[0]'(by omega)) := by
-    rw [List.head?_eq_getElem?, List.getElem?_eq_getElem]
-  have hl : s.getLast? = some (s[s.length - 1]) := by
-    rw [List.getLast?_eq_getElem?, List.getElem?_eq_getElem]
-  have hne1n : s[0]'(by omega) ≠ s[s.length - 1] :=
-    List.pairwise_iff_getElem.1 hsnd 0 (s.length - 1) (by omega) hlast (by omega)
-  obtain ⟨j1, hj1, e1⟩ := List.mem_iff_getElem.1 (hperm.mem_iff.1 (List.getElem_mem (show 0 < s.length by omega)))
-  obtain ⟨jn, hjn, en⟩ := List.mem_iff_getElem.1 (hperm.mem_iff.1 (List.getElem_mem hlast))
-  have p1 : (s[0]'(by omega)).Perm alts := e1 ▸ hord _ (List.getElem_mem hj1)
-  have pn : (s[s.length - 1]).Perm alts := en ▸ hord _ (List.getElem_mem hjn)
-  have r1 : Rep alts x (s[0]'(by omega)) (voters[j1]'(by omega)) := e1 ▸ hrep j1 hj1 (by omega)
-  have rn : Rep alts x (s[s.length - 1]) (voters[jn]'(by omega)) := en ▸ hrep jn hjn (by omega)
-  have hne : alts ≠ [] := by
-    intro e
-    apply hne1n
-    rw [e] at p1 pn
-    rw [p1.eq_nil, pn.eq_nil]
-  have hneq : voters[j1]'(by omega) ≠ voters[jn]'(by omega) := by
-    intro e
-    rw [e] at r1
-    exact hne1n (eq_of_rep alts x _ _ _ halts p1 pn r1 rn)
-  subst hsdef
-  rcases (show voters[j1]'(by omega) < voters[jn]'(by omega) ∨ voters[jn]'(by omega) < voters[j1]'(by omega) by
-    grind) with hlt | hgt
-  · obtain ⟨l, hlp, hax⟩ := reach_lp_geo alts orders _ _ _ _ x halts hsc hh hl ⟨hne, p1, pn, r1, rn, hlt⟩
-    exact ⟨l, hlp, Or.inl hax⟩
-  · obtain ⟨l, hlp, hax⟩ := reach_lp_geo alts orders _ _ _ _ (fun a => -x a) halts hsc hh hl
-      ⟨hne, p1, pn, r1.mirror, rn.mirror, by grind⟩
-    exact ⟨l, hlp, Or.inr hax⟩
+  unfold lp
+  rw [hsc]
+  exact reach_lpOn alts orders _ halts hord hnd h2 hperm voters x hreal
 
 end PrefVerif.C19x
